@@ -2,7 +2,7 @@
    Statements only; proofs in proofs/AbftSeal.v AbftProcess.v (AbftSealWitness.v for the example). *)
 From Coq Require Import NArith List.
 From LV Require Import model.VecIndex model.Abft model.AbftRun spec.AbftSpec
-  proofs.AbftSeal proofs.AbftProcess proofs.AbftSealWitness.
+  proofs.AbftSeal proofs.AbftProcess proofs.AbftRunInv proofs.AbftSealWitness.
 Import ListNotations.
 Local Open Scope N_scope.
 
@@ -38,6 +38,12 @@ Proof. exact process_frames. Qed.
 Theorem C09_elinv_genesis_reset : forall ep v st, elinv (genesis ep v) /\ elinv (reset st ep v).
 Proof. intros; split; reflexivity. Qed.
 
+(* ... and in every state an instance reaches by ANY sequence of operations (Process incl. rejected and
+   ghost events, Build, restart, Reset, probes), so C09_process_blocks applies to every call of every run *)
+Theorem C09_invariants_hold_on_every_run : forall cap pol smp epoch raw ops,
+  good (i_st (run_inst cap pol smp (start epoch raw) ops)).
+Proof. intros. apply run_good. apply start_good. Qed.
+
 (* non-vacuity: a run that seals (one validator, seal at frame 1, new validator 8) and then decides frame 1
    of the new epoch; the trace specification holds on it *)
 Example C09_sealing_run :
@@ -51,3 +57,4 @@ Print Assumptions C09_reset_state.
 Print Assumptions C09_reset_equivalence.
 Print Assumptions C09_process_blocks.
 Print Assumptions C09_elinv_genesis_reset.
+Print Assumptions C09_invariants_hold_on_every_run.
